@@ -20,6 +20,8 @@ import (
 
 type Ctx struct {
 	Tier    string
+	// QuickArm64: include the arm64 configuration (fe_arm64.s) in the quick tier
+	QuickArm64 bool
 	progs   map[string]*load.Program
 	eff     map[string]*effects.Analysis
 	grd     map[string]*guards.Engine
@@ -56,6 +58,10 @@ func NewCtx(tier string) *Ctx {
 func (c *Ctx) Configs() []string {
 	if c.Tier == "thorough" {
 		return []string{"amd64", "purego", "arm64", "386"}
+	}
+	if c.QuickArm64 {
+		// the properties that rest on the limb code analyse the arm64 assembly on every change too
+		return []string{"amd64", "purego", "arm64"}
 	}
 	return []string{"amd64", "purego"}
 }
